@@ -137,7 +137,7 @@ def check(case):
 
 
 def _strategy(tier):
-    return sources.any_text(tier, weights=(1, 2, 3, 5, 2, 2, 1, 1)).map(lambda t: {'text': t})
+    return sources.any_text(tier, weights=(1, 2, 3, 5, 2, 2, 1, 1, 1)).map(lambda t: {'text': t})
 
 
 LEGS = [Leg('text', check=check, strategy=_strategy, examples={'quick': 8000, 'thorough': 150000})]
